@@ -46,10 +46,31 @@ enum V {
 pub struct Helpers {
     /// private functions of the file: name -> (params, body)
     pub fns: BTreeMap<String, (Vec<String>, Block)>,
+    /// constants (free or associated) whose value is a size condition: name -> expression
+    pub consts: BTreeMap<String, Expr>,
 }
 
 pub fn helpers_of(file: &syn::File) -> Helpers {
     let mut fns = BTreeMap::new();
+    let mut consts: BTreeMap<String, Expr> = BTreeMap::new();
+    for it in &file.items {
+        match it {
+            Item::Const(c) if toks(&c.expr).contains("size_of") => {
+                consts.insert(c.ident.to_string(), (*c.expr).clone());
+            }
+            Item::Impl(im) => {
+                for x in &im.items {
+                    if let ImplItem::Const(c) = x {
+                        if toks(&c.expr).contains("size_of") {
+                            consts.insert(c.ident.to_string(), c.expr.clone());
+                        }
+                    }
+                }
+            }
+            _ => {}
+        }
+    }
+    // constants defined through other size constants
     let mut add = |sig: &syn::Signature, b: &Block| {
         let params: Vec<String> = sig
             .inputs
@@ -90,7 +111,7 @@ pub fn helpers_of(file: &syn::File) -> Helpers {
             _ => {}
         }
     }
-    Helpers { fns }
+    Helpers { fns, consts }
 }
 
 type Env = BTreeMap<String, V>;
@@ -132,7 +153,23 @@ impl<'a> Ev<'a> {
                 "false" => Some(V::B(false)),
                 _ => None,
             },
-            Expr::Path(p) if p.path.segments.len() == 1 => env.get(&p.path.segments[0].ident.to_string()).cloned(),
+            Expr::Path(p) if p.path.segments.len() == 1 && env.contains_key(&p.path.segments[0].ident.to_string()) => {
+                env.get(&p.path.segments[0].ident.to_string()).cloned()
+            }
+            Expr::Path(p) => {
+                // a constant (free, or `Self::NAME`) whose value is a size condition
+                let last = p.path.segments.last().map(|s| s.ident.to_string()).unwrap_or_default();
+                let first_ok = p.path.segments.len() == 1 || p.path.segments[0].ident == "Self" || p.path.segments.len() == 2;
+                match self.h.consts.get(&last).cloned() {
+                    Some(x) if first_ok && self.depth < 6 => {
+                        self.depth += 1;
+                        let r = self.sv(&x, &Env::new());
+                        self.depth -= 1;
+                        r
+                    }
+                    _ => None,
+                }
+            }
             Expr::Unary(u) if matches!(u.op, syn::UnOp::Not(_)) => match self.sv(&u.expr, env)? {
                 V::B(b) => Some(V::B(!b)),
                 _ => None,
@@ -250,160 +287,153 @@ impl<'a> Ev<'a> {
         }
     }
 
+    /// actions of a statement list for this class: size decisions folded away first, wherever they stand
+    /// (also inside the arguments of a call), then the calls of interest in evaluation order; nothing after
+    /// a diverging action
     pub fn block(&mut self, stmts: &[Stmt], env: &mut Env) -> Vec<String> {
-        let mut out = vec![];
-        for s in stmts {
-            match s {
-                Stmt::Local(l) => {
-                    if is_cfg_verif(&l.attrs) {
-                        continue;
-                    }
-                    if let Some(init) = &l.init {
-                        if let Pat::Ident(i) = &l.pat {
-                            if let Some(v) = self.sv(&init.expr, env) {
-                                env.insert(i.ident.to_string(), v);
-                                continue;
-                            }
-                        }
-                        if let Pat::Type(t) = &l.pat {
-                            if let Pat::Ident(i) = &*t.pat {
-                                if let Some(v) = self.sv(&init.expr, env) {
-                                    env.insert(i.ident.to_string(), v);
-                                    continue;
-                                }
-                            }
-                        }
-                        if self.has_dispatch(&init.expr, env) {
-                            out.extend(self.expr(&init.expr, env));
-                            continue;
-                        }
-                    }
-                    out.extend(leaf_actions(&[s.clone()]));
-                }
-                Stmt::Expr(e, _) => {
-                    if is_cfg_verif(crate::expr_attrs(e)) {
-                        continue;
-                    }
-                    if self.has_dispatch(e, env) {
-                        out.extend(self.expr(e, env));
-                    } else {
-                        out.extend(leaf_actions(&[s.clone()]));
-                    }
-                }
-                Stmt::Macro(m) => {
-                    if is_cfg_verif(&m.attrs) {
-                        continue;
-                    }
-                    out.extend(leaf_actions(&[s.clone()]));
-                }
-                Stmt::Item(_) => {}
-            }
-        }
-        out
-    }
-
-    /// does evaluating this expression involve a size decision (directly, or in a helper it calls)?
-    fn has_dispatch(&self, e: &Expr, env: &Env) -> bool {
-        struct Vis<'b> {
-            env: &'b Env,
-            h: &'b Helpers,
-            hit: bool,
-        }
-        impl<'b, 'ast> syn::visit::Visit<'ast> for Vis<'b> {
-            fn visit_expr_if(&mut self, i: &'ast syn::ExprIf) {
-                if mentions_size(&i.cond, self.env) || toks(&i.cond).contains("size_of") || cond_names_pred(&i.cond, self.h) {
-                    self.hit = true;
-                }
-                syn::visit::visit_expr_if(self, i);
-            }
-            fn visit_expr_match(&mut self, m: &'ast syn::ExprMatch) {
-                if toks(&m.expr).contains("size_of") || mentions_env(&m.expr, self.env) {
-                    self.hit = true;
-                }
-                syn::visit::visit_expr_match(self, m);
-            }
-        }
-        let mut v = Vis { env, h: self.h, hit: false };
-        syn::visit::Visit::visit_expr(&mut v, e);
-        v.hit
+        let b = Block { brace_token: Default::default(), stmts: stmts.to_vec() };
+        let folded = {
+            let mut f = Simp { ev: self, env: env.clone() };
+            syn::fold::Fold::fold_block(&mut f, b)
+        };
+        cut_after_divergence(leaf_actions(&folded.stmts))
     }
 
     pub fn expr(&mut self, e: &Expr, env: &mut Env) -> Vec<String> {
-        match e {
-            Expr::Paren(p) => self.expr(&p.expr, env),
-            Expr::Unsafe(u) => {
-                let mut inner = env.clone();
-                self.block(&u.block.stmts, &mut inner)
+        self.block(&[Stmt::Expr(e.clone(), None)], env)
+    }
+
+    fn is_sized(&self, e: &Expr, env: &Env) -> bool {
+        toks(e).contains("size_of") || mentions_env(e, env) || cond_names_pred(e, self.h) || names_size_const(e, self.h)
+    }
+}
+
+fn cut_after_divergence(v: Vec<String>) -> Vec<String> {
+    let mut out = vec![];
+    for a in v {
+        let stop = a == "unreachable" || a == "panic" || a == "unimplemented" || a == "todo";
+        out.push(a);
+        if stop {
+            break;
+        }
+    }
+    out
+}
+
+fn names_size_const(e: &Expr, h: &Helpers) -> bool {
+    struct Vis<'b> {
+        h: &'b Helpers,
+        hit: bool,
+    }
+    impl<'b, 'ast> syn::visit::Visit<'ast> for Vis<'b> {
+        fn visit_expr_path(&mut self, p: &'ast syn::ExprPath) {
+            if let Some(s) = p.path.segments.last() {
+                if self.h.consts.contains_key(&s.ident.to_string()) {
+                    self.hit = true;
+                }
             }
-            Expr::Block(b) => {
-                let mut inner = env.clone();
-                self.block(&b.block.stmts, &mut inner)
-            }
-            Expr::Return(r) if r.expr.is_some() => self.expr(r.expr.as_ref().unwrap(), env),
-            Expr::Call(c) if c.args.len() == 1 && matches!(toks(&c.func).as_str(), "Ok" | "Some") && self.has_dispatch(&c.args[0], env) => {
-                self.expr(&c.args[0], env)
-            }
-            Expr::If(i) => {
-                let sized = toks(&i.cond).contains("size_of") || mentions_env(&i.cond, env) || cond_names_pred(&i.cond, self.h);
-                match (sized, self.sv(&i.cond, env)) {
-                    (true, Some(V::B(b))) => {
-                        if b {
-                            let mut inner = env.clone();
-                            self.block(&i.then_branch.stmts, &mut inner)
-                        } else {
-                            match &i.else_branch {
-                                Some((_, eb)) => self.expr(eb, env),
-                                None => vec![],
+        }
+    }
+    let mut v = Vis { h, hit: false };
+    syn::visit::Visit::visit_expr(&mut v, e);
+    v.hit
+}
+
+struct Simp<'a, 'b> {
+    ev: &'b mut Ev<'a>,
+    env: Env,
+}
+
+impl<'a, 'b> syn::fold::Fold for Simp<'a, 'b> {
+    fn fold_block(&mut self, b: Block) -> Block {
+        let saved = self.env.clone();
+        let mut out = vec![];
+        for s in b.stmts {
+            if let Stmt::Local(l) = &s {
+                if is_cfg_verif(&l.attrs) {
+                    continue;
+                }
+                if let Some(init) = &l.init {
+                    let name = match &l.pat {
+                        Pat::Ident(i) => Some(i.ident.to_string()),
+                        Pat::Type(t) => match &*t.pat {
+                            Pat::Ident(i) => Some(i.ident.to_string()),
+                            _ => None,
+                        },
+                        _ => None,
+                    };
+                    if let Some(n) = name {
+                        let env = self.env.clone();
+                        if self.ev.is_sized(&init.expr, &env) {
+                            if let Some(v) = self.ev.sv(&init.expr, &env) {
+                                // a local that names a size condition: remembered, the statement itself does nothing
+                                self.env.insert(n, v);
+                                continue;
                             }
                         }
-                    }
-                    (true, _) => {
-                        self.unsupported.push(toks(&i.cond));
-                        vec![]
-                    }
-                    (false, _) => {
-                        // not a size decision: both branches may run; keep the text of the construct
-                        let mut out = vec![];
-                        let mut inner = env.clone();
-                        out.extend(self.block(&i.then_branch.stmts, &mut inner));
-                        if let Some((_, eb)) = &i.else_branch {
-                            out.extend(self.expr(eb, env));
-                        }
-                        out
                     }
                 }
             }
-            Expr::Match(m) => {
-                let sized = toks(&m.expr).contains("size_of") || mentions_env(&m.expr, env);
-                if sized {
-                    match self.sv(&m.expr, env) {
-                        Some(v) => {
-                            for arm in &m.arms {
-                                match self.pat_ok(&arm.pat, &v) {
-                                    Some(true) => return self.expr(&arm.body, env),
-                                    Some(false) => continue,
-                                    None => {
-                                        self.unsupported.push(format!("match arm {}", toks(&arm.pat)));
-                                        return vec![];
-                                    }
-                                }
-                            }
-                            vec![]
+            out.push(syn::fold::Fold::fold_stmt(self, s));
+        }
+        self.env = saved;
+        Block { brace_token: b.brace_token, stmts: out }
+    }
+
+    fn fold_expr(&mut self, e: Expr) -> Expr {
+        match e {
+            Expr::If(i) => {
+                let env = self.env.clone();
+                if self.ev.is_sized(&i.cond, &env) {
+                    match self.ev.sv(&i.cond, &env) {
+                        Some(V::B(true)) => {
+                            let b = syn::fold::Fold::fold_block(self, i.then_branch);
+                            Expr::Block(syn::ExprBlock { attrs: vec![], label: None, block: b })
                         }
-                        None => {
-                            self.unsupported.push(toks(&m.expr));
-                            vec![]
+                        Some(V::B(false)) => match i.else_branch {
+                            Some((_, eb)) => syn::fold::Fold::fold_expr(self, *eb),
+                            None => Expr::Block(syn::ExprBlock {
+                                attrs: vec![],
+                                label: None,
+                                block: Block { brace_token: Default::default(), stmts: vec![] },
+                            }),
+                        },
+                        _ => {
+                            self.ev.unsupported.push(toks(&i.cond));
+                            Expr::If(i)
                         }
                     }
                 } else {
-                    let mut out = vec![];
-                    for arm in &m.arms {
-                        out.extend(self.expr(&arm.body, env));
-                    }
-                    out
+                    syn::fold::fold_expr(self, Expr::If(i))
                 }
             }
-            _ => leaf_actions(&[Stmt::Expr(e.clone(), None)]),
+            Expr::Match(m) => {
+                let env = self.env.clone();
+                if self.ev.is_sized(&m.expr, &env) {
+                    match self.ev.sv(&m.expr, &env) {
+                        Some(v) => {
+                            for arm in m.arms.iter() {
+                                match self.ev.pat_ok(&arm.pat, &v) {
+                                    Some(true) => return syn::fold::Fold::fold_expr(self, (*arm.body).clone()),
+                                    Some(false) => continue,
+                                    None => {
+                                        self.ev.unsupported.push(format!("match arm {}", toks(&arm.pat)));
+                                        return Expr::Match(m);
+                                    }
+                                }
+                            }
+                            Expr::Match(m)
+                        }
+                        None => {
+                            self.ev.unsupported.push(toks(&m.expr));
+                            Expr::Match(m)
+                        }
+                    }
+                } else {
+                    syn::fold::fold_expr(self, Expr::Match(m))
+                }
+            }
+            other => syn::fold::fold_expr(self, other),
         }
     }
 }
@@ -427,6 +457,13 @@ fn mentions_env(e: &Expr, env: &Env) -> bool {
 
 /// the condition is (a negation of) a call of a parameterless helper whose body is a size condition
 fn cond_names_pred(e: &Expr, h: &Helpers) -> bool {
+    if let Expr::Path(p) = e {
+        if let Some(s) = p.path.segments.last() {
+            if h.consts.contains_key(&s.ident.to_string()) {
+                return true;
+            }
+        }
+    }
     match e {
         Expr::Paren(p) => cond_names_pred(&p.expr, h),
         Expr::Unary(u) => cond_names_pred(&u.expr, h),
